@@ -27,13 +27,12 @@ rm -f "$WT/$PLACE/zz_seeded_demo_test.go"
 git apply "$D/patch.diff"
 RES=""
 for c in $CHECKS; do
-  out=$(cd /verif && VERIF_REPO="$WT" bin/check "$c" quick 2>&1); rc=$?
+  out=$(cd /verif && VERIF_REPO="$WT" VERIF_OUT="$WT/.verif-out" bin/check "$c" quick 2>&1); rc=$?
   key=$(echo "$out" | grep "^  [^ ]" | head -1 | cut -c3-260 | sed 's/"/\\"/g')
   n=$(echo "$out" | grep -c "^VIOLATION property=$c")
   RES="$RES{\"check\":\"$c\",\"exit\":$rc,\"violation_lines\":$n,\"first_finding\":\"$key\"},"
   echo "check $c: exit=$rc violations=$n $key"
 done
-rm -f /verif/replays/*.json
 echo "tests=$TESTS demo_with_change=$WITH demo_without_change=$WITHOUT"
 python3 - "$D" "$P" "$TESTS" "$WITH" "$WITHOUT" "[${RES%,}]" <<'PY'
 import json,sys,time
